@@ -26,8 +26,23 @@ FILES = ["zz_verif_common_test.go", "zz_verif_c19_test.go"]
 MAX_WALK = 300
 
 
+K_TINY = "tiny-cache:evicted-positive-stored-as-negative"
+
+
 def classify(rec):
-    return None  # no known findings for C19
+    """Narrow keys of known findings.
+
+    K_TINY: the Checker was configured with a cache smaller than the entries
+    of a single answer (CacheSize <= 256 bytes), and the only thing wrong is a
+    MISSED block (every outcome the spec admits is "blocked", the code said
+    "not blocked", the question itself was in order).  Anything else -- a
+    false block, a leak, a wrong verdict with a cache of normal size -- has no
+    key."""
+    obs, adm = rec.get("observed") or {}, rec.get("admissible") or []
+    if (rec.get("kind") == "trace" and 0 < (rec.get("cache_size") or 0) <= 256 and obs.get("ok")
+            and obs.get("v") is False and adm and all(o["v"] for o in adm)):
+        return K_TINY
+    return None
 
 
 # ------------------------------------------------------------------ the graph
@@ -42,7 +57,9 @@ class Graph:
         self.ids = {}
         self.states = []
         self.adj = []          # node -> list of (akey, dst, out)
-        for e in edges:
+        # TLC's workers print in no particular order: sort, so that a seed
+        # determines the walks.
+        for e in sorted(edges, key=lambda e: (canon(e["s"]), e["a"], e.get("n", []), e.get("x", ""))):
             u, v = self.node(e["s"]), self.node(e["d"])
             if e["a"] == "check":
                 ak = ("c", ".".join(e["n"]))
@@ -231,10 +248,16 @@ def to_walk_in(g, wid, walk):
     return {"w": wid, "db": start_db, "steps": steps}
 
 
-def direction_a(ctx, cov):
+def direction_a(ctx, cov, universe0):
     """Plans and performs the walks.  Returns the trace lines and a function
     that digests the verdict of the trace spec for these lines."""
-    cfg = "HashPrefix.genq.cfg" if ctx.quick else "HashPrefix.gen.cfg"
+    # Calibration of the planning model (not of the oracle): does this tree
+    # remember a negative answer for a prefix whose first entry has expired?
+    cal = {"w": 0, "db": [], "steps": [["c", "x.com"], ["t"], ["t"], ["c", "x.com"], ["c", "x.com"]]}
+    by0, _ = run_walks(ctx, universe0, [cal], "cal")
+    neg_again = not by0[0][-1]["q"]
+    cov["a_impl_remembers_negative_after_expiry"] = neg_again
+    cfg = "HashPrefix.gen%s%s.cfg" % ("q" if ctx.quick else "", "fix" if neg_again else "")
     gen = ctx.tlc("HashPrefix", cfg, workers=4, timeout=1500)
     uni = [v["universe"] for v in gen["vectors"] if "universe" in v]
     edges = [v for v in gen["vectors"] if "s" in v]
@@ -361,29 +384,49 @@ def direction_b(ctx, cov, pkg, test, tag, synctest):
                 raise vlib.Inconclusive("vacuous %s trace: no %s" % (tag, k))
         reproduced = 0
         starts = {r["w"]: i for i, r in enumerate(rows) if r["a"] == "reset"}
-        for ln in bad[:4]:
+        sizes = {r["w"]: r.get("size", 0) for r in rows if r["a"] == "reset"}
+
+        def record(w, step, last, d):
+            return {"kind": "trace", "test": test, "pkg": pkg, "synctest": synctest, "seed": ctx.seed,
+                    "tier": ctx.tier, "walk": w, "steps": step + 1, "cache_size": sizes.get(w, 0), "observed": last,
+                    "admissible": d.get("admissible"), "valid_entries": d.get("valid")}
+
+        # Rejected lines are grouped by what they look like; a few of each
+        # group are re-executed in isolation (a few attempts each: the order
+        # in which the code stores the entries of one answer is random), so
+        # that lines matching a known finding cannot hide a different one.
+        groups = collections.defaultdict(list)
+        for ln in bad:
             r = rows[ln - 1]
-            w, step = r["w"], ln - 1 - starts[r["w"]] - 1
-            tout1 = ctx.path("c19_%s_iso.ndjson" % tag)
-            ctx.go_test(pkg, FILES, test, env={"VERIF_OUT": tout1, "VERIF_ONLY_WALK": str(w),
-                                               "VERIF_MAX_STEPS": str(step + 1)}, synctest=synctest)
-            rows1 = vlib.read_ndjson(tout1)
-            if not rows1:
-                continue
-            bad1, _, diag1 = validate(ctx, rows1, tag + "_iso")
-            last = rows1[-1]
-            if bad1 and bad1[-1] == len(rows1):
-                reproduced += 1
-                rec = {"kind": "trace", "test": test, "pkg": pkg, "synctest": synctest, "seed": ctx.seed,
-                       "tier": ctx.tier, "walk": w, "steps": step + 1, "observed": last,
-                       "admissible": diag1.get(len(rows1), {}).get("admissible"),
-                       "valid_entries": diag1.get(len(rows1), {}).get("valid")}
-                ctx.disagreement(classify(rec), rec,
-                                 "%s: Check(%s): question %s verdict %s ok=%s (%s) not admitted by the spec "
-                                 "(walk %d step %d)" % (tag, last.get("host"), last["q"], last["v"], last["ok"],
-                                                        last.get("why", ""), w, step))
-            else:
-                ctx.notes.append("%s walk %d step %d rejected once, not reproduced in isolation" % (tag, w, step))
+            step = ln - 1 - starts[r["w"]] - 1
+            groups[classify(record(r["w"], step, r, diag.get(ln, {})))].append((r["w"], step))
+        for key, members in sorted(groups.items(), key=lambda kv: str(kv[0])):
+            for (w, step) in members[:3 if key else 8]:
+                done = False
+                for attempt in range(3):
+                    tout1 = ctx.path("c19_%s_iso.ndjson" % tag)
+                    if os.path.exists(tout1):
+                        os.remove(tout1)
+                    ctx.go_test(pkg, FILES, test, env={"VERIF_OUT": tout1, "VERIF_ONLY_WALK": str(w),
+                                                       "VERIF_MAX_STEPS": str(step + 1)}, synctest=synctest)
+                    rows1 = vlib.read_ndjson(tout1)
+                    if not rows1:
+                        break
+                    bad1, _, diag1 = validate(ctx, rows1, tag + "_iso")
+                    if bad1 and bad1[-1] == len(rows1):
+                        last = rows1[-1]
+                        rec = record(w, step, last, diag1.get(len(rows1), {}))
+                        reproduced += 1
+                        ctx.disagreement(classify(rec), rec,
+                                         "%s: Check(%s) with CacheSize=%s: question %s verdict %s ok=%s (%s) not admitted "
+                                         "by the spec (walk %d step %d)" % (tag, last.get("host"), rec["cache_size"],
+                                                                            last["q"], last["v"], last["ok"],
+                                                                            last.get("why", ""), w, step))
+                        done = True
+                        break
+                if not done:
+                    ctx.notes.append("%s walk %d step %d rejected once, not reproduced in isolation (3 attempts)"
+                                     % (tag, w, step))
         stats["rejected_reproduced"] = reproduced
         cov["b_" + tag] = stats
         return {"checks": len(checks), "sample": next((r for r in checks if r["v"] and not r["q"]), checks[0])}
@@ -403,9 +446,10 @@ def run(ctx):
         if not taken[act]:
             raise vlib.Inconclusive("vacuous: action %s never taken in %s" % (act, mc["cfg"]))
     cov = {"mc_states": mc["distinct"], "mc_transitions": mc["generated"], "mc_actions_taken": dict(taken)}
+    universe0 = [v["universe"] for v in mc["vectors"] if "universe" in v][0]
     del mc
 
-    parts = [direction_a(ctx, cov),
+    parts = [direction_a(ctx, cov, universe0),
              direction_b(ctx, cov, PKG, "^TestZZVerifC19Trace$", "pkg", True),
              direction_b(ctx, cov, FPKG, "^TestZZVerifC19Front$", "front", False)]
     # One TLC run judges all three traces (they are concatenated; every walk
@@ -427,6 +471,7 @@ def run(ctx):
                 "CheckHost on random histories; non-trivial = answered without asking the service although the name "
                 "has candidates.  Every check line is judged by TraceHashPrefix.tla against all outcomes the rules admit.",
         "exhaustive": bool(a["exhaustive"]),
+        "truncated_by_known_finding": skipped if ctx.known_hits else 0,
         "samples": a["samples"] + [{"trace_line_b": b["sample"]}, {"trace_line_front": f["sample"]}],
         "notes": ctx.notes,
     })
